@@ -11,3 +11,4 @@ func TestMain(m *testing.M) { ev.Main(m) }
 func TestPipe(t *testing.T)     { pipeProp.Test(t) }
 func TestEndToEnd(t *testing.T) { e2eProp.Test(t) }
 func TestPtyPeer(t *testing.T)  { ptyPeerMain(t) }
+func TestBig(t *testing.T)      { runBig(t) }
